@@ -14,6 +14,7 @@ from .. import common, solvex, cfgs
 
 LEVEL = "exploration"
 MOD = "C02"
+SITE_EXEMPT = {}     # evaluation sites this check cannot reach (site -> reason); see solvex.site_floor
 _RE = re.compile(r"Function eval (\d+) at point (\d+) has obj")
 
 
@@ -184,6 +185,7 @@ def run(report, tier, seed):
     salts = common.salts_for(tier, seed)
     cps = _configs(tier, salts)
     res = solvex.explore(report, MOD, cps, classify=classify)
+    solvex.site_floor(report, res["tags"], exempt=SITE_EXEMPT)
     cov = report.coverage
     tags = res["tags"]
     need = ["budget_hit", "multi_sample", "partial_point", "soft_restart", "hard_restart",
